@@ -9,7 +9,7 @@
 (*   - for every packet that was shown to the rules: its class, which rule *)
 (*     closures logged it (in order), the verdict the chain returned when  *)
 (*     that is observable, the instant it was shown (= "it left its host"),*)
-(*     whether its destination was a loopback address;                     *)
+(*     whether it was host-local (loopback or the sender's own address);   *)
 (*   - under a fixture: which tagged datagrams arrived at which receiving  *)
 (*     socket and at which virtual instant, and when the run ended.        *)
 (* No IndexMap, no rule ids of the implementation, no pending queue, no    *)
@@ -88,7 +88,8 @@ P_Forget(id) ==
 \*   decision  verdict returned by the chain (PASS / DROP / d) or UNK when not observable
 \*   consulted ids of the rule closures that logged this packet, in order
 \*   sock      id of the receiving socket that was bound from the start and logs arrivals, 0 if none
-\*   lo        the packet shown had a loopback destination
+\*   lo        the packet shown was host-local traffic: its destination was a loopback address
+\*             or one of the sending host's own addresses (it never leaves its host)
 P_Eval(tag, cls, decision, consulted, at, sock, lo) ==
     /\ pk' = Append(pk, [tag |-> tag, cls |-> cls, at |-> at, decision |-> decision,
                          consulted |-> consulted, sock |-> sock, lo |-> lo,
@@ -135,7 +136,11 @@ FirstMatch ==
 ConsultedPrefix ==
     \A i \in Evals : pk[i].consulted = pk[i].prefix
 
-\* "loopback traffic is never shown to rules"
+\* "Every non-loopback packet LEAVING a turmoil-net host is decided by ... loopback traffic is
+\*  never shown to rules": traffic that does not leave its host - addressed to 127.0.0.0/8, ::1
+\*  or to one of the sending host's own configured addresses (DESIGN 6 C19: "loopback and
+\*  own-address traffic is never shown to any rule"; property mechanism kernel/mod.rs egress
+\*  fold-back on is_local) - is never seen by any rule closure.
 LoopbackNeverShown ==
     \A i \in Evals : ~pk[i].lo
 
